@@ -116,8 +116,8 @@ func stopWorker() {
 
 // workerMain: read "id kind fields" lines from stdin, answer "id obs".
 func workerMain() {
-	// a modest stack limit turns unbounded recursion into a prompt, observable crash
-	debug.SetMaxStack(32 << 20)
+	// a modest stack limit turns unbounded recursion into a prompt, observable crash (8 MiB: a run of 450 000 frames overflows it even at 19 bytes of stack per level; nothing in the library recurses)
+	debug.SetMaxStack(8 << 20)
 	sc := bufio.NewScanner(os.Stdin)
 	sc.Buffer(make([]byte, 1<<20), 1<<30)
 	w := bufio.NewWriter(os.Stdout)
